@@ -328,7 +328,7 @@ func init() {
 	specs["C16"] = c16
 	specs["C19"] = net("C19", 3000, 300000, "one case = one built-in plugin (optionally between valid neighbours) with an argument vector drawn from valid, boundary and invalid values of its argument kinds (addresses of both families incl. v4-mapped, CIDRs, durations incl. negative and huge, integers incl. negative/overflowing, URLs incl. >255 and >65535 bytes, domain names incl. over-long labels, MAC spellings, file names incl. missing, wrong arity), written as YAML and started through the real config.Load and LoadPlugins; rejected configurations are counted; accepted ones get 10..40 DHCPv4/DHCPv6 requests and every handler result is serialised, parsed back and compared; distinct = distinct (context-switch hash, reply-sequence hash); non-trivial = at least 2 datagrams delivered", "confswarm")
 	specs["C17"] = net("C17", 2400, 200000, "one case = one simulated server lifetime with a drawn chain of option plugins around a lease plugin (ipv6only before range, lease_time before/after range, autoconfigure after an exhausted or absent range, nbp last, sleep anywhere; DHCPv6: prefix, dns, searchdomains, nbp, sleep) with accepted argument vectors (1..4 addresses, MTUs, durations, domain lists, 1..3 routes, URL schemes with/without params), and 3..24 DISCOVER/REQUEST (or DHCPv6) messages whose parameter request list / ORO is every subset of the relevant codes or absent, with/without option 116; every option of every reply on the wire is compared byte for byte with an independent encoding of the configured value; distinct = distinct (context-switch hash, reply-sequence hash); non-trivial = at least 2 datagrams delivered", "options")
-	specs["C01"] = net("C01", 3200, 300000, "one case = one simulated server lifetime under a drawn chain (any subset, any order of the built-in plugins with valid arguments, DHCPv4 and/or DHCPv6, 2..4 listeners bound/unbound) with 5..300 datagrams from a structure-aware mutator: well-formed, truncated at drawn offsets, bit-flipped, boundary-valued bytes (length fields), extended, slices duplicated or swapped (duplicate / permuted options), wire-only option shapes (zero-length options, IAPrefix of length 0, IA_PD inside IA_PD / IAPrefix, >255-byte options, bad sub-option lengths), relay nesting 0..1200, raw garbage of 0..65535 bytes, replays of earlier datagrams, duplicates in flight; plus the lease, prefix, static-file, mixed and wire scenarios of the other properties; monitors: panic / fatal exit, per-handler yield budget, wedge, at most one reply per datagram, no lock held when idle, and a well-formed exchange completing after the hostile traffic stopped; distinct = distinct (context-switch hash, reply-sequence hash); non-trivial = at least 2 datagrams delivered", "hostile", "hostile", "hostile", "hostile", "pd6", "lease4-crash", "static", "mixed", "wire4", "wire6", "options", "serverid")
+	specs["C01"] = net("C01", 3200, 300000, "one case = one simulated server lifetime under a drawn chain (any subset, any order of the built-in plugins with valid arguments, DHCPv4 and/or DHCPv6, 2..4 listeners bound/unbound) with 5..300 datagrams from a structure-aware mutator: well-formed, truncated at drawn offsets, bit-flipped, boundary-valued bytes (length fields), extended, slices duplicated or swapped (duplicate / permuted options), wire-only option shapes (zero-length options, IAPrefix of length 0, IA_PD inside IA_PD / IAPrefix, >255-byte options, bad sub-option lengths), relay nesting 0..1200, raw garbage of 0..65535 bytes, replays of earlier datagrams, duplicates in flight; plus the lease, prefix, static-file, mixed and wire scenarios of the other properties; monitors: panic / fatal exit, per-handler yield budget, wedge, at most one reply per datagram, no lock held when idle, and a well-formed exchange completing after the hostile traffic stopped; distinct = distinct (context-switch hash, reply-sequence hash); non-trivial = at least 2 datagrams delivered", "hostile", "hostile", "hostile", "hostile", "pd6", "lease4-crash", "static", "mixed", "wire4", "wire6", "options", "serverid", "lease4-sqlfault", "static")
 	specs["C01"].KnownPct = 0
 	specs["C03"] = net("C03", 2400, 200000, "as C02 but crash-heavy: 1..6 crashes placed at statement boundaries (half inside the range plugin / start-up), plus restarts of the range plugin on copies of the database taken at drawn instants; the database is read back by an independent connection at every crash and at the end", "lease4-crash", "lease4-crash", "lease4", "lease4-sqlfault")
 }
@@ -825,7 +825,13 @@ func cmdRun(id, tier string, seedOverride *uint64, runsOverride int) int {
 		if minimised < 3 && len(tape) > 0 {
 			minimised++
 			tmp, _ := os.MkdirTemp("/dev/shm", "verif-shrink-")
-			sh := &shrinker{bin: bin, sp: sp, scenario: g.run.Scenario, known: g.run.Known, class: g.f.Class, prop: id, deadline: time.Now().Add(120 * time.Second), tmpdir: tmp}
+			shrinkS := 120
+			if v := os.Getenv("VERIF_SHRINK_S"); v != "" {
+				if n, err := strconv.Atoi(v); err == nil {
+					shrinkS = n
+				}
+			}
+			sh := &shrinker{bin: bin, sp: sp, scenario: g.run.Scenario, known: g.run.Known, class: g.f.Class, prop: id, deadline: time.Now().Add(time.Duration(shrinkS) * time.Second), tmpdir: tmp}
 			st, sr := sh.shrink(tape)
 			os.RemoveAll(tmp)
 			if sr == nil {
